@@ -5,6 +5,7 @@ evaluated inside Coq.  Cases reuse the graph families and id schemes of C05 (har
 
 case = C05 case fields (backend, idkind, nodes, edges [l, r, k] with probability k/1024) plus
   thresholds  ["p", [k, ...]] (probabilities k/1024, any order, duplicates allowed) |
+              ["wf", [w, ...]] (any float match weights; edge probabilities may then be floats) |
               ["w", [w, ...]] (integer match weights)
   stats       bool (output_cluster_summary_stats)
 """
@@ -104,12 +105,67 @@ Definition run_any (c : DC + SC) : bool := match c with inl a => run_detail a | 
 """
 
 
+_EFF: dict = {}
+
+
+def single_threshold_prob(w) -> float:
+    """The probability the implementation's own single-threshold conversion computes for weight w."""
+    from splink.internals.misc import threshold_args_to_match_prob
+    return threshold_args_to_match_prob(None, float(w))
+
+
+def effective_threshold(backend: str, p: float) -> Fraction:
+    """Exact rational t such that the engine's `match_probability >= <repr(p)>` on a DOUBLE column is
+    `x >= t` for every double x near p.  DuckDB reads the literal as DECIMAL and its comparison with a
+    DOUBLE can sit one ulp off p (either way); SQLite parses it as the double p.  Determined by probing
+    the 7 doubles around p on an independent connection; None if the answers are not monotone."""
+    key = (backend, repr(p))
+    if key in _EFF:
+        return _EFF[key]
+    import math
+    ds = [p]
+    for _ in range(3):
+        ds.insert(0, math.nextafter(ds[0], -math.inf))
+        ds.append(math.nextafter(ds[-1], math.inf))
+    lit = f"{p}"
+    if backend == "duckdb":
+        import duckdb
+        con = duckdb.connect()
+        con.execute("create table t(i integer, x double)")
+        con.executemany("insert into t values (?, ?)", [[i, x] for i, x in enumerate(ds)])
+        ans = [bool(r[0]) for r in con.execute(f"select x >= {lit} from t order by i").fetchall()]
+        con.close()
+    else:
+        import sqlite3
+        con = sqlite3.connect(":memory:")
+        con.execute("create table t(i integer, x real)")
+        con.executemany("insert into t values (?, ?)", list(enumerate(ds)))
+        ans = [bool(r[0]) for r in con.execute(f"select x >= {lit} from t order by i").fetchall()]
+        con.close()
+    res = None
+    if ans == sorted(ans) and ans[0] is False and ans[-1] is True:
+        res = Fraction(ds[ans.index(True)])
+    _EFF[key] = res
+    return res
+
+
 def thr_values(case):
-    """Exact rational value of every requested threshold, in request order."""
+    """Exact rational value of every requested threshold, in request order.
+    "p": k/1024; "w": integer weight, exactly 2^w/(1+2^w) (never within rounding of a dyadic edge);
+    "wf": any weight; the value is what the engine compares against when handed the probability the
+    implementation's single-threshold conversion computes (edges may sit exactly on it)."""
     kind, vals = case["thresholds"]
     if kind == "p":
         return [Fraction(k, 1024) for k in vals]
-    return [Fraction(2) ** int(w) / (1 + Fraction(2) ** int(w)) for w in vals]
+    if kind == "w":
+        return [Fraction(2) ** int(w) / (1 + Fraction(2) ** int(w)) for w in vals]
+    out = []
+    for w in vals:
+        t = effective_threshold(case["backend"], single_threshold_prob(w))
+        if t is None:
+            raise ValueError(f"engine comparison around the threshold of weight {w} is not monotone")
+        out.append(t)
+    return out
 
 
 def distinct_sorted(case):
@@ -143,7 +199,7 @@ def run_impl(case, capture=False):
     edges = pd.DataFrame({
         "uid_l": X5._col([X5.key_of(e[0]) for e in case["edges"]], kind),
         "uid_r": X5._col([X5.key_of(e[1]) for e in case["edges"]], kind),
-        "match_probability": pd.Series([e[2] / 1024 for e in case["edges"]], dtype="float64"),
+        "match_probability": pd.Series([X5.pfloat(e[2]) for e in case["edges"]], dtype="float64"),
     })
     tk, vals = case["thresholds"]
     kw = {"match_probability_thresholds": [k / 1024 for k in vals]} if tk == "p" else \
@@ -180,7 +236,7 @@ def oracle(case, value):
         return x
 
     for l, r, k in case["edges"]:
-        if Fraction(k, 1024) >= value:
+        if X5.pfrac(k) >= value:
             a, b = find(rk[X5.key_of(l)]), find(rk[X5.key_of(r)])
             if a != b:
                 parent[max(a, b)] = min(a, b)
@@ -234,16 +290,18 @@ def canonical_stats(case, recs):
     return res, None
 
 
-def _thr_term(kind, item):
+def _thr_term(kind, item, backend=None):
     if kind == "p":
         return f"(false, 0, {coq_Q(Fraction(item, 1024))})"
+    if kind == "wf":
+        return f"(false, 0, {coq_Q(effective_threshold(backend, single_threshold_prob(item)))})"
     return f"(true, {coq_Z(int(item))}, 0%Q)"
 
 
 def coq_term(case, canon, steps=None):
     nodes, edges, _ = X5.coq_inputs(dict(case, thr=None))
     kind, vals = case["thresholds"]
-    ts = coq_list([_thr_term(kind, v) for v in vals], "(bool * Z * Q)")
+    ts = coq_list([_thr_term(kind, v, case['backend']) for v in vals], "(bool * Z * Q)")
     if steps is None:
         tr = "None"
     else:
@@ -251,10 +309,10 @@ def coq_term(case, canon, steps=None):
             [f"({coq_list([f'({coq_Z(a)}, {coq_Z(b)})' for a, b in sn], '(Z * Z)')}, {coq_list([coq_Z(v) for v in nip], 'Z')})"
              for sn, nip in steps], "(list (Z * Z) * list Z)") + ")"
     if case.get("stats"):
-        rows = coq_list([f"({_thr_term(kind, item)}, ({int(n)}%nat, {int(mx)}%nat, {coq_Q(avg)}))"
+        rows = coq_list([f"({_thr_term(kind, item, case['backend'])}, ({int(n)}%nat, {int(mx)}%nat, {coq_Q(avg)}))"
                          for item, (n, mx, avg) in canon])
         return f"(mkS ({nodes}, {edges}, {ts}, {rows}, {tr}))"
-    cols = coq_list([f"({_thr_term(kind, item)}, {coq_list([f'({coq_Z(a)}, {coq_Z(b)})' for a, b in col], '(Z * Z)')})"
+    cols = coq_list([f"({_thr_term(kind, item, case['backend'])}, {coq_list([f'({coq_Z(a)}, {coq_Z(b)})' for a, b in col], '(Z * Z)')})"
                      for item, col in canon])
     return f"(mkD ({nodes}, {edges}, {ts}, {cols}, {tr}))"
 
@@ -293,14 +351,55 @@ def property_holds(case):
     return not bad, {"column_mismatch": bad[:5]}
 
 
-def shrink(case, budget=120):
+def single_vs_multi(case, recs=None):
+    """Property oracle directly on the implementation, weight form: the multi-threshold column (or
+    summary row) of weight w equals cluster_pairwise_predictions_at_threshold(threshold_match_weight=w)
+    on the same inputs and backend.  -> (ok, info)"""
+    kind, vals = case["thresholds"]
+    assert kind in ("w", "wf")
+    try:
+        recs = run_impl(case) if recs is None else recs
+    except Exception as e:  # noqa: BLE001
+        return False, {"error": repr(e)[:600]}
+    canon, why = (canonical_stats if case.get("stats") else canonical_detail)(case, recs)
+    if canon is None:
+        return False, {"rows": recs[:20], "why": why}
+    bad = []
+    for item, got in canon:
+        c5 = {k: case[k] for k in ("backend", "idkind", "nodes", "edges")}
+        c5.update(entry="standalone", thr=["wf", float(item)], family=case.get("family", ""))
+        try:
+            rows, _ = X5.run_impl(c5)
+        except Exception as e:  # noqa: BLE001
+            return False, {"error": "single-threshold run raised: " + repr(e)[:400]}
+        single, why = X5.canonical_output(c5, rows)
+        if single is None:
+            return False, {"why": "single-threshold output: " + why}
+        if case.get("stats"):
+            sizes = {}
+            for _, c in single:
+                sizes[c] = sizes.get(c, 0) + 1
+            exp = (len(sizes), max(sizes.values()), Fraction(len(single), len(sizes)))
+            n, mx, avg = got
+            if (n, mx) != exp[:2] or abs(avg - exp[2]) > Fraction(1, 10**9):
+                bad.append({"match_weight": item, "multi_threshold_summary": [n, mx, float(avg)],
+                            "independent_single_threshold": [exp[0], exp[1], float(exp[2])]})
+        elif list(got) != list(single):
+            diff = [(a[0], a[1], b[1]) for a, b in zip(got, single) if a != b]
+            bad.append({"match_weight": item, "mismatch(rank, multi, single)": diff[:8]})
+    return not bad, {"multi_vs_independent_single_threshold": bad[:5]}
+
+
+def shrink(case, budget=120, holds=None):
     cur = dict(case)
     runs = 0
+
+    holds = holds or property_holds
 
     def fails(c):
         nonlocal runs
         runs += 1
-        return not property_holds(c)[0]
+        return not holds(c)[0]
 
     changed = True
     while changed and runs < budget:
@@ -337,7 +436,7 @@ def shrink(case, budget=120):
 def features_of(case):
     kind, vals = case["thresholds"]
     return {"backend": case["backend"], "threshold_kind": kind, "stats": bool(case.get("stats")),
-            "negative_match_weight_detailed": bool(kind == "w" and not case.get("stats") and any(int(w) < 0 for w in vals)),
+            "negative_match_weight_detailed": bool(kind in ("w", "wf") and not case.get("stats") and any(float(w) < 0 for w in vals)),
             "n_thresholds": len(vals), "n_nodes": len(case["nodes"])}
 
 
@@ -364,6 +463,33 @@ def build_case(rng, fam, n, backend, idkind, stats):
     for e in c["edges"]:
         e[2] = rng.choice(PROBS)
     c["thresholds"] = gen_thresholds(rng, allow_negative_weights=True)  # alias defect fixed in /repo (c4e4ddd2)
+    c["stats"] = stats
+    del c["thr"]
+    return c
+
+
+def build_wf_case(rng, fam, n, backend, idkind, stats):
+    """Weight-form thresholds with fractional weights; bridging edges sit exactly on (and one ulp
+    either side of) the probability the single-threshold conversion computes for each weight."""
+    import math
+    c = X5.build_case(rng, fam, n, "standalone", backend, idkind, None, thr=None, cut_rate=1.0, noise=True)
+    k = rng.randint(1, 4)
+    ws = []
+    while len(ws) < k:
+        w = round(rng.uniform(-6, 11), rng.choice([1, 2, 2, 3]))
+        if all(abs(w - v) > 0.01 for v in ws):
+            ws.append(int(w) if w == int(w) and rng.random() < 0.5 else w)
+    ps = [single_threshold_prob(w) for w in ws]
+    pool = []
+    for p in ps:
+        pool += [p, p, p, math.nextafter(p, 0.0), math.nextafter(p, 1.0)]
+    pool += [0, 256, 768, 1024]
+    for e in c["edges"]:
+        e[2] = rng.choice(pool)
+    if rng.random() < 0.3:
+        ws = ws + [rng.choice(ws)]
+    rng.shuffle(ws)
+    c["thresholds"] = ["wf", ws]
     c["stats"] = stats
     del c["thr"]
     return c
